@@ -353,6 +353,21 @@ def run(ctx, rep):
                 rep.violation("C18.4", cons, f"a {K} parameter rejects annotated values of kind {sorted(missing)}", f"{val.path}:{x.lineno}")
             else:
                 rep.ok("C18.4", cons, f"accepts annotated kinds {sorted(accepted)}", f"{val.path}:{x.lineno}")
+            if K == "INT":
+                # a FLOAT-kinded named value fits an integer parameter only through an integral float PAYLOAD:
+                # the accepting condition has to test `isinstance(<payload>, float)` itself
+                sub = x.body[0] if x.body and isinstance(x.body[0], ast.If) else None
+                while isinstance(sub, ast.If):
+                    t = sub.test
+                    mentions_float_kind = any(isinstance(m, ast.Compare) and isinstance(m.left, ast.Attribute) and m.left.attr == "kind" and any(isinstance(a, ast.Attribute) and a.attr == "FLOAT" for a in ast.walk(m.comparators[0])) and isinstance(m.ops[0], ast.Eq) for m in ast.walk(t))
+                    if mentions_float_kind:
+                        cons_f = construct_of(val, "float-kind-needs-float-payload")
+                        payload_test = any(isinstance(m, ast.Call) and isinstance(m.func, ast.Name) and m.func.id == "isinstance" and len(m.args) == 2 and "float" in ast.unparse(m.args[1]) and "value" in ast.unparse(m.args[0]) for m in ast.walk(t))
+                        if payload_test:
+                            rep.ok("C18.4", cons_f, "the FLOAT-kind clause tests that the payload is a float (and integral)", f"{val.path}:{sub.lineno}")
+                        else:
+                            rep.violation("C18.4", cons_f, f"`{ast.unparse(t)[:110]}` accepts a FLOAT-kinded value without establishing that it carries a float payload: a float-typed Parameter (no value at all), or a constant defined from another constant, fits an integer parameter", f"{val.path}:{sub.lineno}", witness="Parameter('n', ParamType.INT).validate(Parameter('x', ParamType.FLOAT))")
+                    sub = sub.orelse[0] if len(sub.orelse) == 1 and isinstance(sub.orelse[0], ast.If) else None
         x = x.orelse[0] if len(x.orelse) == 1 and isinstance(x.orelse[0], ast.If) else None
 
     # ------------------------------------------------------------ C18.3 (idle twin of a stretched gate)
